@@ -20,7 +20,7 @@ LEVEL = "proof"
 RULE = ("generic full-rank B × region × feasible (N, s) × option; non-trivial when the constraint is active or the "
         "case is one of the two reductions; distinct by (option, shape, L, N, s, trace)")
 TRUSTED = c05.TRUSTED
-ASSUMPTIONS = c05.ASSUMPTIONS + ["reductions are compared only where every exact greedy choice is unique by more than 1e-9·scale"]
+ASSUMPTIONS = c05.ASSUMPTIONS + ["reductions are compared only where every exact greedy choice is unique by more than the step budget (1e-12·scale·conditioning)"]
 
 
 def own_class_ok(case, res, J, N):
